@@ -10,8 +10,12 @@ scratch path.
 
 Body grammar (JSON lists; booleans may be 0/1 or true/false):
   ['nop'] ['rc',k] ['rn',k] ['sr',b] ['nest',b,B] ['fr',caught] ['cap'] ['seq',A,B] ['h',k,B]
-  ['fx',bound,[k..],[[k,k']..],B] ['fc',bound,[k..],[[k,k']..],k] ['rp','d'|'n'|'r<k>',B]
+  ['fx',form,[k..],[[k,k']..],B] ['fc',form,[k..],[[k,k']..],k] ['rp','d'|'n'|'r<k>',B]
   ['rwc','N'|'none'|k]
+  form: 0 decorator on a function, 1 on an instance method (one class per scenario, one instance per
+        distinct table, a decoy instance with the opposite table looked up first), 2/3 on a classmethod
+        reached through the class / an instance (one base class, a subclass per table), 4/5 on a
+        staticmethod reached through the class / an instance
   ['nt',b,B,LATE]     with sre(reraise=b) as c': B   and, if the with ended normally, LATE on the exited c'
   ['hnt',k,b,B,LATE]  try: raise E[k] / except: with sre(reraise=b) as c': B   and, after the try, LATE on c'
 """
@@ -36,8 +40,11 @@ RULE = ('handler bodies over {nop, raise-and-catch, raise, reraise on/off, neste
         'force_reraise caught/uncaught, capture, inner handler} enumerated exhaustively by number of operations '
         '(<= 3 quick, <= 4 thorough) in the context-manager form (inside `except` + `with`) and the direct-call form '
         '(operations on an un-entered context) x initial flag x exception classes {plain, constructor-with-arguments, '
-        'chained, carrying a prior traceback, BaseException subclass}; exception_filter (function-made / bound-method) '
-        'as context manager and called directly, remove_path_on_error (default / custom / raising remove x '
+        'raised-from-another (chained, with a note), carrying a prior traceback, BaseException subclass, raised inside '
+        'another handler (implicit __context__)}; exception_filter made from a function, an instance method (one class, '
+        'several instances with different tables, a decoy instance looked up first), a classmethod and a staticmethod '
+        '(reached through the class and through an instance), as context manager and called directly, alone and two '
+        'filters interleaved, remove_path_on_error (default / custom / raising remove x '
         'absent / file / directory) and raise_with_cause around all bodies of <= 2 operations; operations (force_reraise, '
         'capture, ...) on a context after its with block ended normally, inside and after the except clause; plus random bodies '
         'over the whole grammar. A case is non-trivial when its body contains at least one helper operation and at '
@@ -53,7 +60,9 @@ TRUSTED_BASE = [
 ]
 UNMODELLED = [
     'traceback contents beyond the code object of each entry (line numbers, locals)',
-    '__context__ chaining; greenthread switches clearing the exception context',
+    '__context__ (assigned by the interpreter on every raise made while another exception is handled) is not in the '
+    'model; the implementation-only oracle checks it together with __cause__, __suppress_context__, args and notes',
+    'greenthread switches clearing the exception context',
     'StopIteration / GeneratorExit thrown through remove_path_on_error; predicates with side effects',
     'the text handed to logger.error (only which exception and traceback were formatted is compared)',
 ]
@@ -68,7 +77,8 @@ ASSUMPTIONS = [
     'the same object propagates (body raised => logged when the flag is on): accepted as stated by the property',
 ]
 
-KINDS = ['plain', 'args', 'chained', 'prior', 'base']
+KINDS = ['plain', 'args', 'chained', 'prior', 'base', 'ctx']
+FORMS = [0, 1, 2, 3, 4, 5]
 PRIOR_LEN = 2
 
 
@@ -162,7 +172,7 @@ def ser(b):
         acc = ','.join(str(k) for k in b[2]) or '-'
         rais = ','.join('%d>%d' % (a, c) for a, c in b[3]) or '-'
         tail = ser(b[4]) if t == 'fx' else str(b[4])
-        return '%s %d %s %s %s' % (t, B(b[1]), acc, rais, tail)
+        return '%s %d %s %s %s' % (t, int(b[1]), acc, rais, tail)
     if t == 'rp':
         return 'rp %s %s' % (b[1], ser(b[2]))
     if t == 'rwc':
@@ -175,9 +185,15 @@ def ser(b):
 
 
 def case_line(case):
-    excs = ','.join('%d:%d:%d' % (k == 'args', k != 'base', PRIOR_LEN if k == 'prior' else 0)
-                    for k in case['kinds'])
+    excs = ','.join('%d:%d:%d:%s:%d' % (k == 'args', k != 'base', PRIOR_LEN if k == 'prior' else 0,
+                                        cause_index(i) if k == 'chained' else 'N', k == 'chained')
+                    for i, k in enumerate(case['kinds']))
     return req('run', B(case['flag']), case['path'], excs, ser(case['body']))
+
+
+def cause_index(k):
+    """a 'chained' E[k] was raised `from` this other declared exception"""
+    return (k + 2) % 3
 
 
 class Rendered:
@@ -193,7 +209,7 @@ def render(body, spy):
     hit = _render_cache.get(key)
     if hit is not None:
         return hit
-    lines = ['def scenario(E, L, X, FU, FILT, PATH, RMS, CAUSED, SPY, FLAG, OUT):',
+    lines = ['def scenario(E, L, X, FU, FILT, OBJ, PATH, RMS, CAUSED, SPY, FLAG, OUT):',
              '    c0 = X.save_and_reraise_exception(reraise=FLAG, logger=L)',
              '    OUT.append(c0)']
     filt = []
@@ -265,24 +281,27 @@ def render(body, spy):
             emit(b[2], ind, ctx)
         elif t == 'fx':
             j = len(filt)
-            filt.append((B(b[1]), tuple(b[2]), tuple((a, c) for a, c in b[3])))
+            filt.append((int(b[1]), tuple(b[2]), tuple((a, c) for a, c in b[3])))
+            # the attribute lookup (exception_filter.__get__) happens here, in program order
+            fexpr = 'FILT[%d]' % j if int(b[1]) == 0 else 'OBJ[%d].pred' % j
             if spy:
                 i = fresh()
                 lines.append(p + 'with SPY.fx_out(%d, %d):' % (i, j))
-                lines.append(p + '    with FILT[%d]:' % j)
+                lines.append(p + '    with %s:' % fexpr)
                 lines.append(p + '        with SPY.plain_in(%d):' % i)
                 emit(b[4], ind + 3, ctx)
             else:
-                lines.append(p + 'with FILT[%d]:' % j)
+                lines.append(p + 'with %s:' % fexpr)
                 emit(b[4], ind + 1, ctx)
         elif t == 'fc':
             j = len(filt)
-            filt.append((B(b[1]), tuple(b[2]), tuple((a, c) for a, c in b[3])))
+            filt.append((int(b[1]), tuple(b[2]), tuple((a, c) for a, c in b[3])))
+            fexpr = 'FILT[%d]' % j if int(b[1]) == 0 else 'OBJ[%d].pred' % j
             if spy:
                 lines.append(p + 'with SPY.fc(%d, %d):' % (j, b[4]))
-                lines.append(p + '    FILT[%d](E[%d])' % (j, b[4]))
+                lines.append(p + '    %s(E[%d])' % (fexpr, b[4]))
             else:
-                lines.append(p + 'FILT[%d](E[%d])' % (j, b[4]))
+                lines.append(p + '%s(E[%d])' % (fexpr, b[4]))
         elif t == 'rp':
             rm = b[1]
             arg = 'PATH' if rm == 'd' else ('PATH, remove=RMS[%r]' % (rm if rm == 'n' else int(rm[1:])))
@@ -386,34 +405,92 @@ class Env:
         self.make_remove = make_remove
         self.noop = lambda path: path
 
-        def make_filter(E, bound, accept, raises):
-            raises = dict(raises)
-            if not bound:
-                @excutils.exception_filter
-                def pred(ex):
-                    for k, v in enumerate(E):
-                        if v is ex:
-                            if k in raises:
-                                raise E[raises[k]]
-                            return k in accept
-                    return False
-                return pred
+        def make_filters(E, specs):
+            """(FILT, OBJ) for the filter operations of one scenario, in rendering order.  All instance-method
+            filters of the scenario live on ONE class (an instance per distinct table, and a decoy instance with
+            the opposite table whose filter is looked up and used first); all classmethod filters on subclasses
+            (one per table, plus a decoy) of ONE base class; the predicate reads the table from the function's
+            closure / `self` / `cls` respectively."""
+            FILT, OBJ = [None] * len(specs), [None] * len(specs)
+            forms = set(f for f, _, _ in specs)
+            ids = range(len(E))
+            if 1 in forms:
+                class Ignorer:
+                    def __init__(self, accept, raises):
+                        self.accept, self.raises = accept, raises
 
-            class Ignorer:
-                def __init__(self, accept):
-                    self.accept = accept
+                    @excutils.exception_filter
+                    def pred(self, ex):
+                        for k, v in enumerate(E):
+                            if v is ex:
+                                if k in self.raises:
+                                    raise E[self.raises[k]]
+                                return k in self.accept
+                        return False
+                insts = {}
+            if forms & {2, 3}:
+                class IgnorerC:
+                    accept, raises = (), {}
 
-                @excutils.exception_filter
-                def pred(self, ex):
-                    for k, v in enumerate(E):
-                        if v is ex:
-                            if k in raises:
-                                raise E[raises[k]]
-                            return k in self.accept
-                    return False
-            return Ignorer(accept).pred
+                    @excutils.exception_filter
+                    @classmethod
+                    def pred(cls, ex):
+                        for k, v in enumerate(E):
+                            if v is ex:
+                                if k in cls.raises:
+                                    raise E[cls.raises[k]]
+                                return k in cls.accept
+                        return False
+                subs = {}
+            decoyed = set()
+            for j, (form, accept, raises) in enumerate(specs):
+                rd = dict(raises)
+                key = (accept, raises)
+                if form == 0:
+                    @excutils.exception_filter
+                    def pred(ex, accept=accept, rd=rd):
+                        for k, v in enumerate(E):
+                            if v is ex:
+                                if k in rd:
+                                    raise E[rd[k]]
+                                return k in accept
+                        return False
+                    FILT[j] = pred
+                elif form == 1:
+                    if 1 not in decoyed:
+                        decoyed.add(1)
+                        decoy = Ignorer(tuple(k for k in ids if k not in accept), {})
+                        with decoy.pred:
+                            pass
+                    if key not in insts:
+                        insts[key] = Ignorer(accept, rd)
+                    OBJ[j] = insts[key]
+                elif form in (2, 3):
+                    if 2 not in decoyed:
+                        decoyed.add(2)
+                        decoy = type('DecoyC', (IgnorerC,), {'accept': tuple(k for k in ids if k not in accept)})
+                        with decoy.pred:
+                            pass
+                        with decoy().pred:
+                            pass
+                    if key not in subs:
+                        subs[key] = type('IgnorerC%d' % len(subs), (IgnorerC,), {'accept': accept, 'raises': rd})
+                    OBJ[j] = subs[key] if form == 2 else subs[key]()
+                else:
+                    class IgnorerS:
+                        @excutils.exception_filter
+                        @staticmethod
+                        def pred(ex, accept=accept, rd=rd):
+                            for k, v in enumerate(E):
+                                if v is ex:
+                                    if k in rd:
+                                        raise E[rd[k]]
+                                    return k in accept
+                            return False
+                    OBJ[j] = IgnorerS if form == 4 else IgnorerS()
+            return FILT, OBJ
 
-        self.make_filter = make_filter
+        self.make_filters = make_filters
         sre, flt = excutils.save_and_reraise_exception, excutils.exception_filter
         self.codes = {
             sre.__exit__.__code__: 'X', sre.force_reraise.__code__: 'F', sre.capture.__code__: 'K',
@@ -424,10 +501,12 @@ class Env:
             fileutils.delete_if_exists.__code__: 'D',
             _O0.__code__: 'O0', _O1.__code__: 'O1', _invoke.__code__: 'H',
         }
-        probe = make_filter([], 0, (), ())
-        self.codes[probe._should_ignore_ex.__code__] = 'P'
-        probe = make_filter([], 1, (), ())
-        self.codes[probe._should_ignore_ex.__func__.__code__] = 'P'
+        for c in make_filters.__code__.co_consts:
+            # the four predicate functions are nested code objects of make_filters (directly or in a class body)
+            if hasattr(c, 'co_consts'):
+                for c2 in (c,) + tuple(x for x in c.co_consts if hasattr(x, 'co_consts')):
+                    if c2.co_name == 'pred':
+                        self.codes[c2] = 'P'
         self.codes[make_remove([], 0).__code__] = 'R'
         return self
 
@@ -477,17 +556,19 @@ class Env:
             else:
                 cls = type('U%d' % k, (base,), {})
                 obj = cls('tag%d' % k)
-            cause = None
-            if kind == 'chained':
-                cause = ValueError('cause-of-%d' % k)
-                obj.__cause__ = cause
+            if kind == 'ctx':
+                obj.__context__ = ValueError('context-of-%d' % k)     # as if raised inside another handler
             if kind == 'prior':
                 ex = _invoke(_O1, (obj,))
                 assert ex is obj
                 obj.__traceback__ = obj.__traceback__.tb_next        # drop the harness frame
             E.append(obj)
             classes.append(cls)
-            preset.append(cause)
+            preset.append(None)
+        for k, kind in enumerate(kinds):
+            if kind == 'chained':                  # as if raised `from` another exception
+                E[k].__cause__ = E[cause_index(k)]        # (this also sets __suppress_context__)
+                E[k].add_note('note-of-%d' % k)
         return E, classes, preset
 
 
@@ -532,9 +613,6 @@ class View:
 
     def cause(self, obj):
         c = obj.__cause__
-        k = self.index(obj)
-        if k is not None:
-            return 'N' if c is self.preset[k] else self.who(c)
         if isinstance(obj, self.env.CAUSED) and getattr(obj, 'cause', None) is not c:
             return 'MISMATCH(%s,%s)' % (self.who(c), self.who(getattr(obj, 'cause', None)))
         return self.who(c)
@@ -550,14 +628,14 @@ def run_impl(env, case, spy=None):
     if uses_path:
         env.set_path(case['path'])
     env.log, env.pending = [], None
-    FILT = [env.make_filter(E, bound, acc, rais) for bound, acc, rais in r.filt]
+    FILT, OBJ = env.make_filters(E, r.filt) if r.filt else ([], [])
     RMS = {'n': env.noop}
     for k in range(len(E)):
         RMS[k] = env.make_remove(E, k)
     OUT = []
     if spy is not None:
         spy.bind(env, view, r.filt)
-    ex = _invoke(r.fn, (E, env.L, env.X, env.FU, FILT, env.path, RMS, env.CAUSED, spy, bool(case['flag']), OUT))
+    ex = _invoke(r.fn, (E, env.L, env.X, env.FU, FILT, OBJ, env.path, RMS, env.CAUSED, spy, bool(case['flag']), OUT))
     if ex is None:
         out = 'out=ok tb=- cause=-'
     else:
@@ -577,10 +655,11 @@ def run_impl(env, case, spy=None):
     else:
         ctx = '?'
     tbs = '|'.join(view.tb(e.__traceback__, e is ex) for e in E)
-    line = '%s log=%s path=%s ctx=%s tbs=%s' % (out, ';'.join(log) or '-', path, ctx, tbs)
+    chain = '|'.join('%s/%d' % (view.who(e.__cause__), B(e.__suppress_context__)) for e in E)
+    line = '%s log=%s path=%s ctx=%s tbs=%s chain=%s' % (out, ';'.join(log) or '-', path, ctx, tbs, chain)
     # break reference cycles exception <-> traceback <-> frame promptly
     for e in E:
-        e.__traceback__ = None
+        e.__traceback__ = e.__cause__ = e.__context__ = None
     if ex is not None:
         ex.__traceback__ = None
     return line
@@ -659,7 +738,7 @@ def random_body(rng, budget, depth=0):
                 items.append(['h', k, sub])
             elif kind == 'fx':
                 acc, rais = rng.choice(PREDS)
-                items.append(['fx', rng.randrange(2), acc, rais, sub])
+                items.append(['fx', rng.choice(FORMS), acc, rais, sub])
             else:
                 items.append(['rp', rng.choice(['d', 'd', 'n', 'r0', 'r1', 'r2']), sub])
             budget -= 1 + sub_budget
@@ -679,7 +758,7 @@ def random_body(rng, budget, depth=0):
                 items.append(['cap'])
             elif c in (8, 9):
                 acc, rais = rng.choice(PREDS)
-                items.append(['fc', rng.randrange(2), acc, rais, k])
+                items.append(['fc', rng.choice(FORMS), acc, rais, k])
             elif c == 10:
                 items.append(['rwc', rng.choice(['N', 'none', 0, 1, 2])])
             else:
@@ -711,16 +790,28 @@ def gen_cases(ctx):
     small = list(bodies_upto(2))
     wrappers = [lambda x: x, lambda x: ['h', 0, x], lambda x: ['h', 0, ['nest', 1, x]],
                 lambda x: ['h', 1, ['seq', ['rc', 0], x]]]
-    for bound in (0, 1):
+    for bound in FORMS:
         for acc, rais in PREDS:
-            for inner in small:
+            for inner in (small if bound <= 1 or not ctx.quick else small[:15]):
                 yield {'flag': 1, 'kinds': ['plain', 'plain', 'plain'], 'path': 'file',
-                       'body': ['fx', bound, acc, rais, inner]}, 'filter-ctx'
+                       'body': ['fx', bound, acc, rais, inner]}, 'filter-ctx/%d' % bound
             for w in wrappers:
                 for k in (0, 1):
-                    for kind in KINDS:
+                    for kind in (KINDS if bound <= 1 else ['plain', 'chained']):
                         yield {'flag': 1, 'kinds': [kind, kind, 'plain'], 'path': 'file',
-                               'body': w(['fc', bound, acc, rais, k])}, 'filter-call'
+                               'body': w(['fc', bound, acc, rais, k])}, 'filter-call/%d' % bound
+    # several filters of one scenario: method forms share one class (two instances with different tables,
+    # used interleaved: nested `with`, and one after the other), mixed with the other forms
+    for f1 in FORMS:
+        for f2 in ((1, 3) if ctx.quick and f1 not in (1, 3) else FORMS):
+            for (a1, r1), (a2, r2) in itertools.product(PREDS[:4], PREDS[:5]):
+                for k in (0, 1):
+                    kinds = ['plain', 'chained', 'plain']
+                    yield {'flag': 1, 'kinds': kinds, 'path': 'file',
+                           'body': ['fx', f1, a1, r1, ['fx', f2, a2, r2, ['rn', k]]]}, 'filter-two/nested'
+                    yield {'flag': 1, 'kinds': kinds, 'path': 'file',
+                           'body': ['h', k, ['seq', ['fx', f1, a1, r1, ['rn', 1 - k]],
+                                             ['seq', ['fc', f2, a2, r2, k], ['fc', f1, a1, r1, k]]]]}, 'filter-two/seq'
     for rm in ('d', 'n', 'r0', 'r1'):
         for path in ('absent', 'file', 'dir'):
             for inner in small:
@@ -770,7 +861,7 @@ def correspondence(ctx):
                     ctx.count('corr/skipped-too-deep')
                     continue
                 ctx.count('out/' + impl.split(' ')[0][4:].replace('R:', ''))
-                if has_helper(case['body']) and any(t != '-' for t in impl.rsplit('tbs=', 1)[1].split('|')):
+                if has_helper(case['body']) and any(t != '-' for t in impl.rsplit('tbs=', 1)[1].split(' ')[0].split('|')):
                     ctx.nontrivial((case['flag'], tuple(case['kinds']), case['path'], ser(case['body'])))
                 if tag == 'random' or ctx.evaluations % 5000 == 1:
                     ctx.sample({'case': case, 'implementation': impl}, 6)
@@ -825,6 +916,35 @@ class Spy:
     def snapshot(self, ex):
         return (ex, self.view.tags(ex.__traceback__) if ex is not None else [])
 
+    @staticmethod
+    def chain(ex):
+        """everything besides identity and traceback that makes an exception the same with nothing lost"""
+        if ex is None:
+            return None
+        return (ex.__cause__, ex.__context__, ex.__suppress_context__, ex.args,
+                tuple(getattr(ex, '__notes__', None) or ()))
+
+    def chain_lost(self, before, ex, active='same'):
+        """Text saying what changed on `ex` since `before`, or None.  `active` is the exception that was being
+        handled when `ex` was raised again by a `raise` statement: the interpreter itself then points
+        __context__ at it (unless it is `ex` itself or nothing) - that is Python's doing, not the helper's."""
+        if before is None or ex is None:
+            return None
+        w = self.view.who
+        now = self.chain(ex)
+        want_ctx = before[1]
+        if active != 'same' and active is not None and active is not ex:
+            want_ctx = active
+        if now[0] is not before[0]:
+            return '__cause__ was %s, now %s' % (w(before[0]), w(now[0]))
+        if now[1] is not want_ctx:
+            return '__context__ should be %s, now %s' % (w(want_ctx), w(now[1]))
+        if now[2] != before[2]:
+            return '__suppress_context__ was %r, now %r' % (before[2], now[2])
+        if now[3] != before[3] or now[4] != before[4]:
+            return 'args / notes changed: %r %r -> %r %r' % (before[3], before[4], now[3], now[4])
+        return None
+
     # -- save_and_reraise_exception ---------------------------------------
     def sre_out(self, i):
         r = self.rec(i)
@@ -832,6 +952,7 @@ class Spy:
         def enter():
             # exc_info as seen by a callee of the frame that is about to run `with sre()`
             r['orig'], r['t0'] = self.snapshot(sys.exc_info()[1])
+            r['active0'] = r['orig']     # what is being handled around the whole `with` statement
             r['forced'] = 0
 
         def exit(val):
@@ -844,6 +965,8 @@ class Spy:
         def exit(val):
             r['in'] = (val, self.view.tags(val.__traceback__) if val is not None else [], c.reraise,
                        len(self.env.log))
+            r['inchain'] = self.chain(val)
+            r['origchain'] = self.chain(r['orig'])       # the original as the body left it
         return _Probe(None, exit)
 
     def forced(self, i):
@@ -851,11 +974,11 @@ class Spy:
         before = []
 
         def enter():
-            before[:] = [r['orig'], list(r['t0']), r['forced']]
+            before[:] = [r['orig'], list(r['t0']), r['forced'], self.chain(r['orig']), sys.exc_info()[1]]
             r['forced'] += 1
 
         def exit(val):
-            orig, t0, n = before
+            orig, t0, n, chain0, active = before
             if n > 0:
                 return       # second force_reraise() on the same capture: the state of finding N1
             w = self.view.who
@@ -872,8 +995,11 @@ class Spy:
             else:
                 tags = self.view.tags(val.__traceback__)
                 added = tags[:len(tags) - len(t0)]
+                lost = self.chain_lost(chain0, val, active)
                 if added.count('S') > 1 or any(t not in ('S', 'F') for t in added):
                     self.fail('force-traceback-polluted', 'captured traceback %s came back as %s' % (t0, tags))
+                elif lost:
+                    self.fail('force-chain-lost', 'force_reraise() gave back %s but %s' % (w(val), lost))
         return _Probe(enter, exit)
 
     def captured(self, i):
@@ -899,6 +1025,9 @@ class Spy:
             if self.view.tags(out.__traceback__) != vtags:
                 return self.fail('body-exception-traceback-changed', '%s -> %s'
                                  % (vtags, self.view.tags(out.__traceback__)), klass)
+            lost = self.chain_lost(r.get('inchain'), out)
+            if lost:
+                return self.fail('body-exception-chain-changed', '%s: %s' % (w(out), lost), klass)
             if dlog != (1 if flag else 0):
                 return self.fail('original-logged-%d-times-flag-%s' % (dlog, bool(flag)),
                                  'body raised %s with reraise=%r: original logged %d time(s)' % (w(val), flag, dlog),
@@ -935,6 +1064,12 @@ class Spy:
         if r['forced'] == 0 and (added.count('S') > 1 or any(t not in ('S', 'X', 'F') for t in added)):
             # only the re-raise itself (force_reraise, __exit__, the frame of the `with`) may be added
             return self.fail('reraise-traceback-polluted', 'original traceback %s came back as %s' % (t0, tags), klass)
+        # (after a capture() in an inner handler the saved exception is not the one being handled around the
+        # `with`; the interpreter then points its __context__ at the handled one when it is raised again)
+        lost = self.chain_lost(r.get('origchain'), out, r.get('active0'))
+        if lost and r['forced'] == 0:
+            # the same object, but part of what it carried is gone
+            return self.fail('reraise-chain-lost', 'the original %s was re-raised but %s' % (w(out), lost), klass)
 
     # -- probes that only record how a body ended --------------------------
     def plain_in(self, i):
@@ -942,6 +1077,7 @@ class Spy:
 
         def exit(val):
             r['in'] = (val, self.view.tags(val.__traceback__) if val is not None else [], None, len(self.env.log))
+            r['inchain'] = self.chain(val)
             r['path'] = self.env.path_kind()
         return _Probe(None, exit)
 
@@ -972,6 +1108,8 @@ class Spy:
                 self.fail('filter-suppressed-or-replaced', 'predicate rejects %s but %s came out' % (w(val), w(out)))
             elif v == 'reject' and self.view.tags(out.__traceback__) != vtags:
                 self.fail('filter-traceback-changed', '%s -> %s' % (vtags, self.view.tags(out.__traceback__)))
+            elif v == 'reject' and self.chain_lost(r.get('inchain'), out):
+                self.fail('filter-chain-changed', '%s: %s' % (w(out), self.chain_lost(r.get('inchain'), out)))
             elif v == 'raises' and out is not self.view.E[k2]:
                 self.fail('filter-predicate-exception-lost', 'predicate raised E%d, %s came out' % (k2, w(out)))
         return _Probe(None, exit)
@@ -980,8 +1118,11 @@ class Spy:
         ex = self.view.E[k]
         before = []
 
+        state = {}
+
         def enter():
             before[:] = self.view.tags(ex.__traceback__)
+            state['chain'], state['active'] = self.chain(ex), sys.exc_info()[1]
 
         def exit(out):
             w = self.view.who
@@ -993,6 +1134,9 @@ class Spy:
             elif v == 'reject' and before and self.view.tags(out.__traceback__)[-len(before):] != before:
                 self.fail('filter-call-traceback-lost', '%s does not end with %s'
                           % (self.view.tags(out.__traceback__), before))
+            elif v == 'reject' and self.chain_lost(state['chain'], out, state['active']):
+                self.fail('filter-call-chain-changed', 'E%d: %s'
+                          % (k, self.chain_lost(state['chain'], out, state['active'])))
             elif v == 'raises' and out is not self.view.E[k2]:
                 self.fail('filter-call-predicate-exception-lost', 'predicate raised E%d, %s came out' % (k2, w(out)))
         return _Probe(enter, exit)
@@ -1015,7 +1159,8 @@ class Spy:
                 return
             if not isinstance(val, Exception):
                 # interpretation (see ASSUMPTIONS): not an "error"; must pass through untouched
-                if out is not val or self.view.tags(out.__traceback__) != vtags or dlog:
+                if out is not val or self.view.tags(out.__traceback__) != vtags or dlog or \
+                        self.chain_lost(r.get('inchain'), out):
                     self.fail('rpoe-baseexception-not-passed', '%s in, %s out' % (w(val), w(out)))
                 return
             raising = rm.startswith('r') and self.view.E[int(rm[1:])] is not val
@@ -1032,6 +1177,9 @@ class Spy:
                 return self.fail('rpoe-not-reraised', 'body raised %s, %s came out' % (w(val), w(out)))
             if self.view.tags(out.__traceback__) != vtags:
                 return self.fail('rpoe-traceback-changed', '%s -> %s' % (vtags, self.view.tags(out.__traceback__)))
+            if self.chain_lost(r.get('inchain'), out):
+                return self.fail('rpoe-chain-lost', 'the original %s was re-raised but %s'
+                                 % (w(out), self.chain_lost(r.get('inchain'), out)))
             if rm == 'd' and path1 != 'absent':
                 return self.fail('rpoe-path-not-removed', 'path is %s after the error' % path1)
             if rm != 'd' and path1 != path0:
@@ -1098,23 +1246,32 @@ def search(ctx, seeds, full=False):
         # the small bodies in both forms first (cheap, and where a broken helper shows at once)
         for body in bodies_upto(2 if not full else 3):
             for b in (0, 1):
-                for kinds in (['plain', 'plain', 'plain'], ['args', 'base', 'plain']):
+                for kinds in (['plain', 'plain', 'plain'], ['args', 'base', 'plain'], ['chained', 'ctx', 'plain'],
+                              ['ctx', 'chained', 'plain']):
                     yield {'flag': 1, 'kinds': kinds, 'path': 'file', 'body': ['h', 0, ['nest', b, body]]}
                     yield {'flag': b, 'kinds': kinds, 'path': 'file', 'body': body}
         for body in bodies_upto(1 if not full else 2):
             for late in LATES:
                 for b in (0, 1):
-                    for kinds in (['plain', 'plain', 'plain'], ['prior', 'args', 'plain']):
+                    for kinds in (['plain', 'plain', 'plain'], ['prior', 'args', 'plain'], ['chained', 'ctx', 'plain'],
+                                  ['ctx', 'chained', 'plain']):
                         yield {'flag': 1, 'kinds': kinds, 'path': 'file', 'body': ['h', 0, ['nt', b, body, late]]}
                         yield {'flag': 1, 'kinds': kinds, 'path': 'file', 'body': ['hnt', 0, b, body, late]}
-        for bound in (0, 1):
+        for bound in FORMS:
             for acc, rais in PREDS:
                 for inner in (['rn', 0], ['rn', 1], ['nop'], ['h', 0, ['nest', 1, ['nop']]]):
                     yield {'flag': 1, 'kinds': ['plain', 'base', 'plain'], 'path': 'file',
                            'body': ['fx', bound, acc, rais, inner]}
                 for k in (0, 1):
-                    yield {'flag': 1, 'kinds': ['plain', 'plain', 'plain'], 'path': 'file',
+                    yield {'flag': 1, 'kinds': ['chained', 'ctx', 'plain'], 'path': 'file',
                            'body': ['h', 0, ['fc', bound, acc, rais, k]]}
+        for f1, f2 in ((1, 1), (3, 3), (1, 0), (2, 3), (5, 1)):
+            for (a1, r1), (a2, r2) in itertools.product(PREDS[:4], PREDS[:4]):
+                for k in (0, 1):
+                    yield {'flag': 1, 'kinds': ['plain', 'plain', 'plain'], 'path': 'file',
+                           'body': ['fx', f1, a1, r1, ['fx', f2, a2, r2, ['rn', k]]]}
+                    yield {'flag': 1, 'kinds': ['plain', 'plain', 'plain'], 'path': 'file',
+                           'body': ['h', k, ['seq', ['fc', f2, a2, r2, k], ['fc', f1, a1, r1, k]]]}
         for rm in ('d', 'n', 'r0', 'r1'):
             for path in ('absent', 'file', 'dir'):
                 for kind in KINDS:
@@ -1195,7 +1352,8 @@ LEVEL_TEXT = ('Machine-checked proof (Lean 4) over a hand-written model of save_
               'accepts (both ways of making it, context manager and call); remove_path_on_error removes then re-raises '
               'the same object with the traceback it had (for Exception subclasses - BaseException-only exceptions pass '
               'through without removal, proved as a negative); capture re-targets; raise_with_cause takes the active '
-              'exception as cause. Finding N1 (force_reraise caught in the body, then normal exit invents a fresh '
+              'exception as cause; every pre-existing exception keeps its class, __cause__ and __suppress_context__ through every '
+              'program (exec_preserves_chain); __get__ binds the very instance / class it is looked up through. Finding N1 (force_reraise caught in the body, then normal exit invents a fresh '
               'instance / TypeError) is proved as a negative and listed as a known finding. The model is tied to the '
               'code by an exhaustive small-scope plus random differential correspondence on every run.')
 LEVEL_NOTE = ('Trusted: Lean kernel; axioms propext/Quot.sound/Classical.choice only (audited each run); the hand model '
